@@ -15,9 +15,39 @@ TRUSTED_BASE = [
 
 UNITS = {
     'automaton': {'rlimit': 50, 'timeout': 120},
+    'crc': {'rlimit': 50, 'timeout': 120},
+    'cw': {'rlimit': 50, 'timeout': 120},
+    'open': {'rlimit': 50, 'timeout': 120},
 }
 
 PROPS = {
+    'C10': {
+        'units': ['open'],
+        'kani': [],
+        'own': {'open': r'Fst::(new|verify|as_ref)|u64_to_usize|From'},
+        'level_text': 'Proof: Fst::new is verified generically over D: AsRef<[u8]> against per-version footer offsets written from '
+                      'the format description: versions 1-3 with at least 32/36 bytes open with the footer fields at the '
+                      'per-version offsets, shorter inputs give Format{size}, unsupported versions Version{expected:3, got}; '
+                      'verify() returns ChecksumMissing exactly when the version carries no checksum.',
+        'level_note': 'Vec, slice, Cow and memory maps are one obligation through the AsRef trait specification (as_ref() returns a '
+                      'stable view: assumed). read_u64_le/read_u32_le contracts assumed here (Kani K-bytes). That every query on an '
+                      'old-version file answers by content is decided only as far as the version-parametric decoder contracts go '
+                      '(see C02/C03 for the reader side).',
+        'explanation': 'Fst::new / verify and the metadata accessors of src/raw/mod.rs verified against the C10 clauses.',
+        'assumptions': [],
+    },
+    'C20': {
+        'units': ['open', 'crc'],
+        'kani': [],
+        'level_text': 'Proof of totality: Verus discharges every slice-index, arithmetic and unwrap obligation of Fst::new for all byte '
+                      'strings of all lengths, and of len/is_empty/size/fst_type/as_bytes/to_vec/verify on every value satisfying '
+                      'the invariant new establishes; CheckSummer::update (slice-by-16 CRC) is total for every slice.',
+        'level_note': 'Trusted: Verus/Z3, vstd. The Fst invariant (checksum present => at least 36 bytes) rests on new being the only '
+                      'constructor (private fields: structural). "No unsafe code" is checked by a token scan of src/ (a lint, reported '
+                      'as a checked assumption, not a proof).',
+        'explanation': 'Absence of panics in open-then-verify is the absence of failed safety obligations in units open and crc.',
+        'assumptions': [],
+    },
     'C18': {
         'units': ['automaton'],
         'kani': [],
